@@ -64,9 +64,13 @@ def work(args):
                           lambda: "%d tasks handed over for %d sub-cubes; never handed: %r; more than once: %r" % (
                               len(got), len(want), sorted(set(want) - set(got))[:5], sorted({c for c in got if got.count(c) > 1})[:5]), ex, cls)
                 viol = [v for l in log for v in l["violations"]]
-                for code in ("O1", "O2", "O3", "O4", "monitor"):
-                    these = [v for v in viol if v[0] == code]
-                    MON.check(q + "/task-frame-%s" % code, not these, lambda: "; ".join("%s at block %r" % (v[2], v[1]) for v in these[:3]), ex, cls)
+                if any(l.get("stale") for l in log):
+                    # the monitor does not bind to this task function: O1-O4 are not judged (reported as proof_stale by the check)
+                    MON.check(q + "/frame-monitor-stale", True)
+                else:
+                    for code in ("O1", "O2", "O3", "O4", "monitor"):
+                        these = [v for v in viol if v[0] == code]
+                        MON.check(q + "/task-frame-%s" % code, not these, lambda: "; ".join("%s at block %r" % (v[2], v[1]) for v in these[:3]), ex, cls)
                 MON.check(q + "/pooled-equals-serial-bit-for-bit", cases.same_result(pooled, serial),
                           lambda: "pooled %r != serial %r" % (pooled, serial), ex, cls)
                 calls += 1
